@@ -161,6 +161,8 @@ def first_diff(a, b, path='', ignore=IGNORE):
 # ------------------------------------------------------------------ shape recognition
 
 def span_is_dummy(sp):
+    if sp is None:
+        return False
     lo = sp['lo']['0']
     hi = sp['hi']['0']
     return lo == 0 and hi == 0 if isinstance(lo, int) and isinstance(hi, int) else False
@@ -480,6 +482,12 @@ def value_same(a, o):
         return False
     if kind(x) in ('Lit', 'Ident') and kind(x) == kind(y):
         return tree_eq(x, y)
+    if kind(x) == 'Bin' and kind(y) == 'Bin':
+        # a literal-only sum is side-effect free: passing a structural copy of it is passing the same value
+        lo = lit_only(x)
+        if lo is False:
+            return False
+        return conj([lo, tree_eq(x, y)])
     return False
 
 
@@ -498,7 +506,7 @@ def operand_kind(e):
     return k
 
 
-def check_C03(er, plus_names=None):
+def check_C03(er, cfg_terms=None):
     """every hook: first argument = the operation applied to exactly the remaining arguments, in order"""
     out = []
     for h in er.hooks:
@@ -524,22 +532,32 @@ def check_C03(er, plus_names=None):
                 out.append(Violation('C03', 'method/unrecognised-result', True, ''))
                 continue
             callee = c['_0']
-            if kind(callee) == 'Member' and payload(callee)['prop'].get('_v') == 'Ident' and (ceq(payload(callee)['prop']['_0']['sym'], 'call') or ceq(payload(callee)['prop']['_0']['sym'], 'apply')):
-                which = payload(callee)['prop']['_0']['sym']
+            if kind(callee) == 'Member' and payload(callee)['prop'].get('_v') == 'Ident' and (leaf_eq(payload(callee)['prop']['_0']['sym'], 'call') is not False or leaf_eq(payload(callee)['prop']['_0']['sym'], 'apply') is not False):
+                psym = payload(callee)['prop']['_0']['sym']
                 F = payload(callee)['obj']
                 if not args:
-                    out.append(Violation('C03', 'method/%s-without-this' % which, True, ''))
+                    out.append(Violation('C03', 'method/call-without-this', True, ''))
                     continue
-                expected = [eos(F), args[0]]
-                rest = args[1:]
-                if which == 'apply' and len(rest) >= 1 and rest[0]['spread'] is None and kind(rest[0]['expr']) == 'Array' and not is_lazy(payload(rest[0]['expr'])['elems']):
-                    for el in payload(rest[0]['expr'])['elems']:
-                        if el is not None:
-                            expected.append(el)
-                    expected.extend(rest[1:]) if False else None
-                else:
-                    expected.extend(rest)
-                role = 'method-' + which
+                # the property name may be symbolic (copied from the input `X.prototype.m.<call|apply>`): check both readings
+                for which in ('call', 'apply'):
+                    wc = leaf_eq(psym, which)
+                    if wc is False:
+                        continue
+                    if which == 'apply' and any(x['spread'] is not None for x in args[:2]):
+                        # `f.apply(...x, ..)`: receiver and argument list are only known after spreading; what "the call
+                        # arguments" are is not determined syntactically -> outside the claim (stated in DESIGN.md)
+                        continue
+                    expected = [eos(F), args[0]]
+                    rest = args[1:]
+                    if which == 'apply' and len(rest) >= 1 and rest[0]['spread'] is None and kind(rest[0]['expr']) == 'Array' and not is_lazy(payload(rest[0]['expr'])['elems']):
+                        for el in payload(rest[0]['expr'])['elems']:
+                            if el is not None:
+                                expected.append(el)
+                        expected.extend(rest[1:])
+                    else:
+                        expected.extend(rest)
+                    out.extend(compare_operands('method-' + which, A, expected, cfg_terms, wc))
+                continue
             elif kind(callee) == 'Ident':
                 undefined = {'_t': 'Expr', '_v': 'Ident', '_0': {'_t': 'Ident', 'span': None, 'ctxt': None, 'sym': 'undefined', 'optional': False}}
                 expected = [eos(callee), eos(undefined)] + list(args)
@@ -550,14 +568,30 @@ def check_C03(er, plus_names=None):
         else:
             out.append(Violation('C03', 'hook/unrecognised-result:%s' % k, True, ''))
             continue
+        out.extend(compare_operands(role, A, expected, cfg_terms, True))
+    return out
+
+
+def compare_operands(role, A, expected, cfg_terms, pre):
+    """hook operand arguments A vs operands of the operation; `pre` is an extra condition under which this reading applies"""
+    out = []
+    if True:
         if len(A) != len(expected):
             missing = sorted(set(operand_kind(x['expr']) for x in expected if not any(value_same(a, x) is not False for a in A)))
-            out.append(Violation('C03', '%s/operand-missing:%s' % (role, ','.join(missing) or 'extra'), True, 'hook gets %d operand arguments, operation has %d' % (len(A), len(expected))))
-            continue
+            detail = 'hook gets %d operand arguments, operation has %d' % (len(A), len(expected))
+            r = '%s/operand-missing:%s' % (role, ','.join(missing) or 'extra')
+            if 'Bin' in missing and cfg_terms is not None:
+                # an un-instrumented `+` operand: distinguish "plus operator disabled" (sum left as written) from a literal-only sum
+                plus_on = operator_enabled(cfg_terms, 'plusOperator')
+                out.append(Violation('C03', r, conj([pre, plus_on]), detail))
+                out.append(Violation('C03', r + ':plus-operator-disabled', conj([pre, neg(plus_on)]), detail))
+            else:
+                out.append(Violation('C03', r, pre, detail))
+            return out
         for i, (a, o) in enumerate(zip(A, expected)):
             c = value_same(a, o)
             if c is not True:
-                out.append(Violation('C03', '%s/operand-%d-differs:%s' % (role, i, operand_kind(o['expr'])), neg(c), ''))
+                out.append(Violation('C03', '%s/operand-%d-differs:%s' % (role, i, operand_kind(o['expr'])), conj([pre, neg(c)]), ''))
     return out
 
 
@@ -1121,4 +1155,59 @@ def check_C04(in_view, out_view, er, erased, cfg_terms):
                     walk(x, c, ('%s>%s.%s' % (prev, t, fk)) if prev not in ('program',) and prev.split('.')[0] in STMT_OWNERS else '%s.%s' % (t, fk))
 
     walk(in_view, {'in_block': False, 'excluded': None}, 'program')
+    return out
+
+
+# ------------------------------------------------------------------ C06: reserved-prefix collision
+
+def check_C06_collision(in_view, out_view, status_view, prefix):
+    """if the file is not refused, no identifier of the input may be captured by an injected declaration:
+    for every block that declares injected temporaries, no user identifier (one that carries a real span)
+    inside that block (including nested blocks and closures) may have one of the declared names"""
+    out = []
+    st = ['Modified', 'NotModified', 'Cancelled'][status_view['status']['_d']]
+    if st == 'Cancelled':
+        return out
+    seen = set()
+
+    def idents_in(v, acc):
+        if isinstance(v, (list, tuple)):
+            for x in v:
+                idents_in(x, acc)
+            return
+        if not isinstance(v, dict) or is_lazy(v):
+            return
+        if v.get('_t') == 'Ident':
+            if not span_is_dummy(v['span']):
+                acc.append(v['sym'])
+            return
+        for x in v.values():
+            idents_in(x, acc)
+
+    def walk(v):
+        if isinstance(v, (list, tuple)):
+            for x in v:
+                walk(x)
+            return
+        if not isinstance(v, dict) or is_lazy(v):
+            return
+        if v.get('_t') == 'BlockStmt' and not is_lazy(v['stmts']):
+            names = set()
+            for s in v['stmts'][:4]:
+                n = is_injected_let(s)
+                if n is not None:
+                    names.update(n)
+            if names:
+                acc = []
+                idents_in([s for s in v['stmts'] if is_injected_let(s) is None], acc)
+                for sym in acc:
+                    for n in names:
+                        c = leaf_eq(sym, n) if isinstance(n, str) else False
+                        if c is not False and ('cap', n) not in seen:
+                            seen.add(('cap', n))
+                            out.append(Violation('C06', 'collision/user-identifier-captured-by-injected-let', c, 'user identifier %s is captured by the injected declaration' % n))
+        for x in v.values():
+            walk(x)
+
+    walk(out_view)
     return out
